@@ -240,10 +240,10 @@ def shards(tier: str, seed: int):
     out = []
     apis = ("sync", "async")
     for api in apis:
-        for sig in SIZES:
-            for sign in (True, False):
-                for vt in ("off", "isd", "three"):
-                    out.append(["req", api, sig, sign, vt])
+        for sign in (True, False):
+            for vt in ("off", "isd", "three"):
+                for half in (0, 1):
+                    out.append(["req", api, half, sign, vt])
         for sig in SIZES if tier == "thorough" else (16, 76):
             out.append(["reply", api, sig])
         out.append(["ntlm", api])
@@ -260,10 +260,11 @@ def run_shard(shard, tier, seed, acc) -> None:
     d = seams.Drbg(("C13", seed))
     n = 0
     if what == "req":
-        _, _, sig, sign, vt_name = shard
+        _, _, half, sign, vt_name = shard
         vt = vts()[vt_name]
-        top = 320 if tier == "thorough" or sig in (16, 76) else 47
-        for ln in range(0, top + 1):
+        # consecutive connections use different signature sizes (as NTLM vs Kerberos under one negotiate package would)
+        plan = [(ln, sig) for ln in range(half, 321, 2) for sig in SIZES if tier == "thorough" or sig in (16, 76) or ln <= 47]
+        for ln, sig in plan:
             stub = d.bytes(ln)
             peer = Peer("scripted", sig, sign)
             case = ["req", api, sig, sign, vt_name, ln]
@@ -277,7 +278,7 @@ def run_shard(shard, tier, seed, acc) -> None:
             check_reply(acc, case, peer, cctx, r)
             n += 1
             acc.set_add("residues", ((24 + ln) % 16, vt_name))
-        acc.sample({"api": api, "signature_size": sig, "header_signing": sign, "verification_trailer": vt_name, "stub_lengths": f"0..{top}"})
+        acc.sample({"api": api, "signature_sizes_interleaved": SIZES, "header_signing": sign, "verification_trailer": vt_name, "stub_lengths": "0..320"})
     elif what == "seq":
         _, _, sig, sign = shard
         for vt_name in ("off", "isd"):
@@ -385,13 +386,13 @@ def replay(case, seed, acc) -> None:
     d = seams.Drbg(("C13", seed))
     if what == "req":
         _, _, sig, sign, vt_name, ln = case
-        stub = b""
-        for k in range(0, ln + 1):
-            stub = d.bytes(k)
-        peer = Peer("scripted", sig, sign)
-        r, cctx = exchange(api, peer, stub, vts()[vt_name], 0, 7 if ln % 2 else 0)
-        check_request(acc, case, peer, cctx, stub, vt_name, 0, 7 if ln % 2 else 0)
-        check_reply(acc, case, peer, cctx, r)
+        # replay the connection before it too (another signature size) so that cross-connection state is reproduced
+        for sg_, l_ in ((76 if sig != 76 else 16, max(ln - 1, 0)), (sig, ln)):
+            stub = seams.Drbg(("C13r", seed, l_)).bytes(l_)
+            peer = Peer("scripted", sg_, sign)
+            r, cctx = exchange(api, peer, stub, vts()[vt_name], 0, 7 if l_ % 2 else 0)
+            check_request(acc, case, peer, cctx, stub, vt_name, 0, 7 if l_ % 2 else 0)
+            check_reply(acc, case, peer, cctx, r)
     elif what == "reply":
         _, _, sig, ln, pad = case
         peer = Peer("scripted", sig, True, reply_stub=bytes(ln), reply_pad=pad)
